@@ -700,7 +700,7 @@ def r11(ctx):
         raise ShapeError("ClientSSM.await_confirmation_timeout: no retry path found")
 
 
-@rule("C05.R12", "a duplicated (late) segment-ack after the last segment of a request is harmless: while waiting for the confirmation it neither aborts nor completes the transaction", floor=1,
+@rule("C05.R12", "a duplicated (late) segment-ack after the last segment of a request is harmless: while waiting for the confirmation it neither aborts nor completes the transaction", floor=2,
       engines="E1 paths + E5")
 def r12(ctx):
     prog = ctx.prog
@@ -720,5 +720,19 @@ def r12(ctx):
         if p_.term == "raise" or "abort" in calls or "set_state" in calls or "response" in calls or "request" in calls:
             ok = False
             why = p_.describe()[:160]
+    # the same duplicate can arrive one state later: the first segment of a segmented confirmation has overtaken it
+    c2, f2 = _fn(ctx, "ClientSSM", "segmented_confirmation")
+    apdu2 = f2.args.args[1].arg
+    n2 = 0
+    ok2 = True
+    for p_ in enumerate_paths(f2):
+        if not feasible(p_, ev, {"%s.apduType" % apdu2: code, "isinstance:%s" % apdu2: "SegmentAckPDU"}):
+            continue
+        n2 += 1
+        calls2 = [self_call(x) for x in p_.calls()]
+        if p_.term == "raise" or "abort" in calls2 or "set_state" in calls2 or "response" in calls2:
+            ok2 = False
+    ctx.check("ClientSSM.segmented_confirmation:stray-segment-ack-ignored", ok2 and n2 >= 1, where(c2.module, f2),
+              "a segment-ack for the request that arrives (again) after the first segment of the confirmation must be ignored, not answered with an abort")
     ctx.check("ClientSSM.await_confirmation:stray-segment-ack-ignored", ok and n >= 1, where(c.module, f),
               "a segment-ack that arrives (again) while the confirmation is awaited must be ignored, not answered with an abort or an exception: %s" % why)
